@@ -23,8 +23,12 @@ A write through a value whose location set contains ('P', p) makes p "possibly m
 
 Policies (every one is part of the trusted base and repeated in props/c19.py TRUSTED):
   * external functions (numpy, scipy, itertools, copy, builtins) are classified by the tables below; a call of an
-    external function or of a method name found in no table and in no class of the library makes the enclosing
-    function UNKNOWN (= may write every parameter, result may alias everything);
+    external function that falls under no table and not under the default rule, or of a method name found in no
+    table and in no class of the library, makes the enclosing function UNKNOWN (= may write every parameter, result may
+    alias everything). Default rule (default_pure): a numpy / scipy.linalg / scipy.sparse / scipy.special / itertools /
+    math / cmath function in no table, called without out= / copy= / overwrite_*= keywords and not a ufunc `.at`, a
+    random generator, an iterator / buffer / I/O / setter function, writes none of its arguments; its result is fresh
+    storage that may also be (a view of) or contain any of its arguments;
   * `np.einsum` is treated as fresh only with two or more array operands (with one operand it can return a view);
   * `.copy()` is ndarray.copy (deep) unless the receiver is a list/dict/set allocated in the same function or was read
     from a field that some class of the library initialises with a list/dict/set (`psi.A.copy()`): then shallow;
@@ -83,7 +87,10 @@ EXT_MUTATE = {'numpy.copyto': 0, 'numpy.fill_diagonal': 0, 'numpy.put': 0, 'nump
               'numpy.random.shuffle': 0, 'numpy.put_along_axis': 0}
 # external functions returning a fresh container / iterator over the ELEMENTS of their arguments (shallow)
 EXT_SHALLOW = {'copy.copy', 'itertools.product', 'itertools.combinations', 'itertools.permutations',
-               'itertools.chain', 'itertools.accumulate'}
+               'itertools.chain', 'itertools.accumulate',
+               'collections.deque', 'collections.OrderedDict', 'collections.defaultdict', 'collections.Counter'}
+EXT_SHALLOW_KIND = {'copy.copy': 'obj', 'collections.deque': 'queue', 'collections.OrderedDict': 'dict', 'collections.defaultdict': 'dict',
+                    'collections.Counter': 'dict'}
 
 BUILTIN_SCALAR = {'len', 'abs', 'int', 'float', 'complex', 'bool', 'str', 'hash', 'isinstance', 'issubclass', 'print',
                   'all', 'any', 'round', 'id', 'type', 'repr', 'callable', 'divmod', 'pow', 'ord', 'chr', 'format'}
@@ -225,6 +232,50 @@ class Program:
                 self.load(os.path.join(pkg, fn), fn[:-3])
         for m in self.modules.values():
             self.resolve_imports(m)
+        self.link_bases()
+
+    def link_bases(self):
+        """single / multiple inheritance between classes of the library: methods, properties and class attributes that a class
+        does not define itself are looked up in its bases (depth first, left to right, first hit wins -- equal to Python's MRO
+        for tree-shaped hierarchies; diamonds are rejected).  A base that is not a class of the library makes the program
+        unanalysable (fail closed), except the enum bases."""
+        lin = {}
+
+        def linear(cq, stack=()):
+            if cq in lin:
+                return lin[cq]
+            info = self.classes[cq]
+            out = []
+            if cq in stack:
+                self.errors.append('class %s: cyclic inheritance' % cq)
+                return out
+            for b in ([] if info['enum'] else info['bases']):
+                mod = self.modules[info['module']]
+                r = mod['names'].get(b)
+                if b == 'object':
+                    continue
+                if r is None or r[0] != 'class' or r[1] not in self.classes:
+                    self.errors.append('%s: class %s has base class %s, which is not a class of the library (inheritance from '
+                                       'external classes is not modelled)' % (mod['file'], info['name'], b))
+                    continue
+                for x in [r[1]] + linear(r[1], stack + (cq,)):
+                    if x in out:
+                        self.errors.append('class %s: base class %s is reached twice (diamond inheritance is not modelled)' % (cq, x))
+                    else:
+                        out.append(x)
+            lin[cq] = out
+            return out
+        for cq in list(self.classes):
+            info = self.classes[cq]
+            info['mro'] = linear(cq)
+        for cq, info in self.classes.items():
+            for b in info['mro']:
+                bi = self.classes[b]
+                for m, q in bi['own_methods'].items():
+                    info['methods'].setdefault(m, q)
+                for a, k in bi['own_attrs'].items():
+                    info['attrs'].setdefault(a, k)
+                info['props'] |= {m for m in bi['own_props'] if info['methods'].get(m) == bi['own_methods'].get(m)}
 
     def load(self, path, modname):
         src = open(path, encoding='utf-8').read()
@@ -266,8 +317,6 @@ class Program:
                 'attrs': {}, 'bases': bases, 'name': st.name, 'module': modname}
         self.classes[cq] = info
         mod['names'][st.name] = ('class', cq)
-        if bases and not info['enum']:
-            self.errors.append('%s:%d: class %s has base classes %s (inheritance is not modelled)' % (mod['file'], st.lineno, st.name, bases))
         for b in st.body:
             if isinstance(b, ast.FunctionDef):
                 kind = 'method'
@@ -307,6 +356,9 @@ class Program:
                 pass
             else:
                 self.errors.append('%s:%d: unsupported class-level statement %s' % (mod['file'], b.lineno, type(b).__name__))
+        info['own_methods'] = dict(info['methods'])
+        info['own_attrs'] = dict(info['attrs'])
+        info['own_props'] = set(info['props'])
 
     @staticmethod
     def _containerish(v):
@@ -625,11 +677,19 @@ class FA:
             return V(v.flat(), es=v.es)
         res = None
         cands = self.P.props_by_name.get(a, [])
+        allprops = False
         if v.cls is not None:
-            cands = [q for q in cands if self.P.funcs[q].cls in v.cls]
+            cands, allprops = [], True
+            for c in v.cls:
+                ci = self.P.classes.get(c)
+                if ci is not None and a in ci['props'] and ci['methods'].get(a) is not None:    # own or inherited property
+                    if ci['methods'][a] not in cands:
+                        cands.append(ci['methods'][a])
+                else:
+                    allprops = False
         for q in cands:
             res = vjoin(res, self.call_func(q, [v], {}, e, env))
-        if v.cls is not None and cands and len(cands) == len(v.cls):
+        if v.cls is not None and cands and allprops:
             return res if res is not None else EMPTY
         g = self.sub(v)
         if a in self.P.container_fields:
@@ -834,6 +894,24 @@ class FA:
                 self.ev(a.value if isinstance(a, ast.Starred) else a, env)
             return self.top()
         f = e.func
+        if (isinstance(f, ast.Attribute) and isinstance(f.value, ast.Call) and isinstance(f.value.func, ast.Name)
+                and f.value.func.id == 'super' and not f.value.args and not f.value.keywords
+                and self.f.cls is not None and self.f.kind == 'method' and self.f.params):
+            # super().m(...) inside a method: the next definition of m along the bases of the enclosing class, bound to self
+            q = None
+            for b in self.P.classes[self.f.cls].get('mro', []):
+                q = self.P.classes[b]['own_methods'].get(f.attr)
+                if q is not None:
+                    break
+            args = [self.ev(a, env) for a in e.args]
+            kw = {k.arg: self.ev(k.value, env) for k in e.keywords}
+            if q is None:
+                if f.attr == '__init__' and not self.P.classes[self.f.cls].get('mro'):
+                    return EMPTY                      # object.__init__
+                self.unknown('super().%s not found in the library bases of %s' % (f.attr, self.f.cls), e)
+                return self.top()
+            me = ast.copy_location(ast.Name(id=self.f.params[0], ctx=ast.Load()), e)
+            return self.call_func(q, [self.ev(me, env)] + args, kw, e, env)
         if isinstance(f, ast.Attribute):
             rv = self.ev(f.value, env)
             args = [self.ev(a, env) for a in e.args]
@@ -897,12 +975,41 @@ class FA:
         self.store([a], V(s), e)
         return V(s | {a})
 
+    PURE_STDLIB = ('itertools.', 'math.', 'cmath.', 'fractions.', 'numbers.')
+
+    def default_pure(self, name, kw):
+        if any(k in ('out', 'copy', 'casting', 'subok') or k.startswith('overwrite') for k in kw):
+            return False
+        last = name.rsplit('.', 1)[-1]
+        if name.startswith('numpy.'):
+            # excluded: generators / global state, ufunc methods that write (at), buffer and iterator tricks, I/O, setters
+            if name.startswith(('numpy.random.', 'numpy.lib.', 'numpy.ctypeslib.', 'numpy.testing.', 'numpy.ndarray.')):
+                return False
+            if last in ('at', 'nditer', 'ndindex', 'frombuffer', 'memmap', 'fromfile', 'load', 'save', 'savez', 'savetxt',
+                        'loadtxt', 'genfromtxt', 'require', 'may_share_memory', 'shares_memory', 'vectorize', 'frompyfunc',
+                        'apply_along_axis', 'apply_over_axes', 'fromfunction', 'piecewise', 'nan_to_num', 'errstate'):
+                return False
+            if last.startswith(('set', 'seterr')):
+                return False
+            return True
+        if name.startswith('scipy.'):
+            if '.blas' in name or '.lapack' in name or last.startswith(('get_', 'set')):
+                return False
+            if name.startswith(('scipy.linalg.', 'scipy.sparse.', 'scipy.special.')):
+                return True
+            return False
+        return name.startswith(self.PURE_STDLIB)
+
     def check_out(self, kw, e):
         if 'out' in kw:
             self.mutate(kw['out'].flat(), e, 'numpy out= argument in `%s`' % self.text(e))
 
     def call_ext(self, name, args, kw, e, env):
         self.check_out(kw, e)
+        if isinstance(e, ast.Call):
+            for x in list(e.args) + [k.value for k in e.keywords]:
+                if ast.unparse(x) in ('object', "'O'", "'object'", 'np.object_', 'numpy.object_', 'np.dtype(object)'):
+                    self.unknown('object dtype requested from %s (arrays of references are not modelled)' % name, e)
         allv = list(args) + list(kw.values())
         for a in allv:
             if a.fn is not None and a.fn[0] == 'lambda':
@@ -934,10 +1041,22 @@ class FA:
                 self.mutate(args[k].flat(), e, '%s writes its argument %d in `%s`' % (name, k, self.text(e)))
             return EMPTY
         if name in EXT_SHALLOW:
-            a = self.alloc(e, 'ext', 'obj' if name == 'copy.copy' else 'iter')
+            if name == 'collections.defaultdict' and args and ((args[0].fn is not None and args[0].fn[0] != 'builtin') or args[0].locs):
+                self.unknown('collections.defaultdict with a default factory (called implicitly on lookups)', e)
+            a = self.alloc(e, 'ext', EXT_SHALLOW_KIND.get(name, 'iter'))
             for x in allv:
                 self.store([a], self.sub(x), e)
             return V([a], cls=(args[0].cls if name == 'copy.copy' and args else None))
+        if self.default_pure(name, kw):
+            # default for numpy / scipy / pure stdlib functions found in no table: they write none of their arguments
+            # (the functions that do are listed in EXT_MUTATE, or take out= / copy= / overwrite_*= keywords, which are
+            # excluded here); the result is treated as fresh storage that MAY ALSO be, or contain, any argument (view)
+            a = self.alloc(e, 'ext', 'array' if name.startswith(('numpy.', 'scipy.')) else 'iter')
+            locs = {a}
+            for x in allv:
+                locs |= x.flat()
+                self.store([a], self.sub(x), e)
+            return V(frozenset(locs))
         self.unknown('external function %s is in no table' % name, e)
         return self.top()
 
@@ -1012,10 +1131,14 @@ class FA:
         """-> (library candidates, external semantics apply?)"""
         cands = self.P.methods_by_name.get(name, [])
         if rv.cls is not None:
-            c2 = [q for q in cands if self.P.funcs[q].cls in rv.cls]
-            if len(c2) == len(rv.cls):
-                return c2, False
-            return c2, True
+            c2, miss = [], False
+            for c in rv.cls:
+                q = self.P.classes[c]['methods'].get(name) if c in self.P.classes else None     # own or inherited
+                if q is None:
+                    miss = True
+                elif q not in c2:
+                    c2.append(q)
+            return c2, miss
         fl = rv.flat()
         if fl and all(is_alloc(l) and self.akind.get(l) in BUILTIN_KINDS for l in fl):
             return [], True
@@ -1307,7 +1430,11 @@ class FA:
             o = self.ev(target.value, env)
             self.ev(target.slice, env)
             self.mutate(o.flat(), target, 'item assignment `%s = ...`' % self.text(target))
-            self.store(o.flat(), v, node)
+            if o.flat() and all(is_alloc(l) and self.akind.get(l) == 'array' for l in o.flat()):
+                pass    # ndarray.__setitem__ on an array allocated here copies the VALUES of v (numeric dtypes; requesting
+                        # an object dtype from an external function makes the enclosing function UNKNOWN): no reference kept
+            else:
+                self.store(o.flat(), v, node)
         else:
             self.unknown('unsupported assignment target %s' % type(target).__name__, target)
 
